@@ -21,6 +21,12 @@ def _c13_small(args):
             out.append(x_bits.observe_bitwise(fx, np, [pid], op, tx, xs, ty=ty, cys=cy, hist=(['inplace', 'view', 'elementwise', 'intfmt', 'fortran', 'transposed'][((cy + idx) // 3) % 6] if (cy + idx) % 3 == 0 else None)))
             if (cy + idx) % 3 == 0 or tier == 'thorough':
                 out.append(x_bits.observe_bitwise(fx, np, [pid], op, tx, [xs[(cy + idx) % len(xs)]], ty=ty, cys=cy, scalar=True))
+        # in-place spellings (x &= y, x |= m, ...), with fixed-point and integer-mask operands
+        for cy in (ly, hy, ly + (idx % (hy - ly + 1))):
+            out.append(x_bits.observe_bitwise(fx, np, [pid], op, tx, xs, ty=ty, cys=cy, iop=True))
+        out.append(x_bits.observe_bitwise(fx, np, [pid], op, tx, xs, mask=[1, (1 << tx[1]) - 1, 1 << (tx[1] - 1), -2][idx % 4], iop=True,
+                                          hist=[None, 'reworded', 'likeword'][idx % 3]))
+        out.append(x_bits.observe_bitwise(fx, np, [pid], op, tx, xs, ty=ty, cys=[ly, hy][idx % 2], hist=['reworded', 'likeword'][idx % 2]))
         if tx == ty:
             m = 1 << tx[1]
             for mask in sorted({0, 1, m - 1, m >> 1, (m >> 1) - 1, -1, -m, m, m + 1, 2 * m - 1, -2, 5, (idx * 7) % m}):
@@ -73,7 +79,37 @@ def _c13_wide(args):
         out.append(x_bits.observe_bitwise(fx, np, [pid], op, tx, mixed, mask=rng.choice([(1 << w) - 1, 1 << (w - 1), rng.getrandbits(w), 15]), side=rng.choice(['left', 'right']), shape=shp))
         out.append(x_bits.observe_bitwise(fx, np, [pid], op, tx, mixed, ty=ty, cys=rng.choice(ys), shape=shp, hist=rng.choice([None, 'inplace', 'view'])))
         out.append(x_bits.observe_mismatch(fx, np, [pid], rng.choice(['and', 'or', 'xor']), tx, (ty[0], w + rng.choice([-1, 1, 32]), 0)))
+        out += wide_nd_and_inplace(fx, np, pid, rng, tx, ty)
     return [o for o in out if o is not None]
+
+
+def wide_nd_and_inplace(fx, np, pid, rng, tx, ty):
+    """N-D operands whose ROWS are homogeneous in magnitude class (a row of results below 2^63 next to a row in [2^63, 2^64) next
+    to a row beyond: NumPy would give each row another dtype), in-place spellings, and operands that lived at another word length"""
+    out = []
+    w = tx[1]
+    lo, hi = rng_of(tx)
+    ly, hy = rng_of(ty)
+    clamp = lambda c: min(hi, max(lo, c))
+    k = rng.choice([2, 3])
+    rows = [[clamp(rng.randint(0, (1 << 62))) for _ in range(k)], [clamp(rng.randint(1 << 63, (1 << 64) - 1)) for _ in range(k)],
+            [clamp(rng.randint(lo, hi)) for _ in range(k)], [clamp(-rng.randint(1, 1 << 40)) for _ in range(k)]]
+    rng.shuffle(rows)
+    nrow = rng.choice([2, 3, 4])
+    codes = [c for r in rows[:nrow] for c in r]
+    shp = (nrow, k) if rng.random() < 0.7 else (nrow, 1, k)
+    for op in ('and', 'or', 'xor'):
+        mask = rng.choice([(1 << w) - 1, (1 << 63), (1 << 63) - 1, (1 << 64) - 1, rng.getrandbits(w), 0])
+        out.append(x_bits.observe_bitwise(fx, np, [pid], op, tx, codes, mask=mask, side=rng.choice(['left', 'right']), shape=shp))
+        out.append(x_bits.observe_bitwise(fx, np, [pid], op, tx, codes, ty=ty, cys=rng.choice([ly, hy, 0, rng.randint(ly, hy)]), shape=shp))
+        out.append(x_bits.observe_bitwise(fx, np, [pid], op, tx, codes[:k], mask=mask, iop=True))
+        out.append(x_bits.observe_bitwise(fx, np, [pid], op, tx, [codes[0]], ty=ty, cys=rng.choice([ly, hy, rng.randint(ly, hy)]), scalar=True, iop=True))
+        if w < 60:
+            out.append(x_bits.observe_bitwise(fx, np, [pid], op, tx, codes[:k], mask=mask, hist=rng.choice(['reworded', 'likeword'])))
+    out.append(x_bits.observe_bitwise(fx, np, [pid], 'not', tx, codes, shape=shp))
+    if w < 60:
+        out.append(x_bits.observe_bitwise(fx, np, [pid], 'not', tx, codes[:k], hist=rng.choice(['reworded', 'likeword'])))
+    return out
 
 
 def _c14_small(args):
